@@ -20,7 +20,15 @@
      * blob_delete never fails (blob_delete_spec): push_deletion_record calls load_index first,
        which leaves the index in memory, so the append cannot hit the on-disk branch.  Hence
        delete_in_closed never reports f2 and do_delete never sets the ghost flag; ODelete preserves
-       BlobsOk without using the `s_f2 = false` hypothesis.  Only OWrite can raise F2.
+       BlobsOk without using the `s_f2 = false` hypothesis.  Only OWrite could raise F2.
+     * F2 is unreachable since the repair of restore_active (it installs blob_load_index b, as
+       do_open does for the last blob): ActiveInMemory (the active blob's index is never on disk)
+       holds of init_storage and is kept by every step and by quiesce (step_ActiveInMemory,
+       quiesce_ActiveInMemory, run_ActiveInMemory); under it no step raises the ghost flag
+       (step_f2_eq), no step answers ErrorKind::Index (step_no_index_error), every write is
+       acknowledged (do_write_ack), and the invariant needs no proviso (run_Inv_mem).  The
+       theorems with an `s_f2 ... = false` hypothesis (step_BlobsOk, run_Inv, ...) are kept as the
+       stepping stones; Theorems.v discharges the hypothesis with never_f2.
      * do_open on id-ordered files keeps the blobs, their ids and their records in the same order
        (do_open_order). *)
 Require Import Pearl.Base.Prelude Pearl.Storage.Model Pearl.Storage.Spec Pearl.Storage.Inv.
@@ -367,14 +375,14 @@ Proof.
   apply BlobsOk_ensure_active, H.
 Qed.
 
-Lemma BlobsOk_restore_active s : BlobsOk K s -> BlobsOk K (fst (restore_active s)).
+Lemma BlobsOk_restore_active s : BlobsOk K s -> BlobsOk K (fst (restore_active K s)).
 Proof.
   intros H. unfold restore_active. destruct (s_active s) as [a|] eqn:E; cbn [fst]; [exact H|].
   destruct (pop_last (s_closed s)) as [[b c]|] eqn:P; cbn [fst]; [|exact H].
   destruct (pop_last_in _ _ _ P) as [Hb Hc].
   apply BlobsOk_upd_active.
   - apply BlobsOk_upd_closed; [exact H|]. intros x Hx. apply (proj1 H), Hc, Hx.
-  - intros x Hx. injection Hx as <-. apply (proj1 H), Hb.
+  - intros x Hx. injection Hx as <-. apply blob_load_index_ok, (proj1 H), Hb.
 Qed.
 
 Lemma BlobsOk_worker s f :
@@ -540,7 +548,7 @@ Proof.
   - intros _. pose proof (BlobsOk_close_active s H) as H1. destruct (close_active s) as [s' e].
     cbn [fst] in *. apply BlobsOk_request_dump, H1.
   - intros _. pose proof (BlobsOk_create_active s H) as H1. destruct (create_active s) as [s' e]. exact H1.
-  - intros _. pose proof (BlobsOk_restore_active s H) as H1. destruct (restore_active s) as [s' e]. exact H1.
+  - intros _. pose proof (BlobsOk_restore_active s H) as H1. destruct (restore_active K s) as [s' e]. exact H1.
   - intros _. cbn [fst]. apply BlobsOk_request_dump, BlobsOk_worker; [apply BlobsOk_close_active|exact H].
   - intros _. cbn [fst]. apply BlobsOk_worker; [apply BlobsOk_create_active|exact H].
   - intros _. cbn [fst]. apply BlobsOk_worker; [apply BlobsOk_restore_active|exact H].
@@ -576,7 +584,7 @@ Proof. unfold close_active. destruct (s_active s); reflexivity. Qed.
 Lemma f2_create_active s : s_f2 (fst (create_active s)) = s_f2 s.
 Proof. unfold create_active. destruct (s_active s); [reflexivity|apply f2_ensure_active]. Qed.
 
-Lemma f2_restore_active s : s_f2 (fst (restore_active s)) = s_f2 s.
+Lemma f2_restore_active s : s_f2 (fst (restore_active K s)) = s_f2 s.
 Proof.
   unfold restore_active. destruct (s_active s); [reflexivity|].
   destruct (pop_last (s_closed s)) as [[b c]|]; reflexivity.
@@ -643,7 +651,7 @@ Proof.
     cbn [fst] in *. rewrite f2_request_dump, H1. exact H.
   - pose proof (f2_create_active s) as H1. destruct (create_active s) as [s' e].
     cbn [fst] in *. rewrite H1. exact H.
-  - pose proof (f2_restore_active s) as H1. destruct (restore_active s) as [s' e].
+  - pose proof (f2_restore_active s) as H1. destruct (restore_active K s) as [s' e].
     cbn [fst] in *. rewrite H1. exact H.
   - cbn [fst]. rewrite f2_request_dump, f2_worker by apply f2_close_active. exact H.
   - cbn [fst]. rewrite f2_worker by apply f2_create_active. exact H.
@@ -755,12 +763,12 @@ Proof.
   unfold create_active. destruct (s_active s) as [a|] eqn:E; cbn [fst]; [auto|]. apply IdsOkS_ensure_active.
 Qed.
 
-Lemma IdsOkS_restore_active s : IdsOkS s -> IdsOkS (fst (restore_active s)).
+Lemma IdsOkS_restore_active s : IdsOkS s -> IdsOkS (fst (restore_active K s)).
 Proof.
   unfold restore_active. destruct (s_active s) as [a|] eqn:E; cbn [fst]; [auto|].
   destruct (pop_last (s_closed s)) as [[b c]|] eqn:P; cbn [fst]; [|auto].
   apply IdsOkS_same; [|reflexivity]. rewrite !ids_eq, E. cbn [upd_closed upd_active s_closed s_active].
-  rewrite (pop_last_cb _ _ _ P), map_app, app_nil_r. reflexivity.
+  rewrite (pop_last_cb _ _ _ P), map_app, app_nil_r. cbn [map]. rewrite blob_load_index_id. reflexivity.
 Qed.
 
 Lemma IdsOkS_worker s f :
@@ -917,7 +925,7 @@ Proof.
     cbn [fst] in *. apply IdsOkS_IdsOk, IdsOkS_request_dump, H1.
   - pose proof (IdsOkS_create_active s HS) as H1. destruct (create_active s) as [s' e].
     cbn [fst] in *. apply IdsOkS_IdsOk, H1.
-  - pose proof (IdsOkS_restore_active s HS) as H1. destruct (restore_active s) as [s' e].
+  - pose proof (IdsOkS_restore_active s HS) as H1. destruct (restore_active K s) as [s' e].
     cbn [fst] in *. apply IdsOkS_IdsOk, H1.
   - cbn [fst]. apply IdsOkS_IdsOk, IdsOkS_request_dump, IdsOkS_worker; [apply IdsOkS_close_active|exact HS].
   - cbn [fst]. apply IdsOkS_IdsOk, IdsOkS_worker; [apply IdsOkS_create_active|exact HS].
@@ -977,12 +985,12 @@ Qed.
 Lemma abs_create_active s : abs (fst (create_active s)) = abs s.
 Proof. unfold create_active. destruct (s_active s) as [a|]; [reflexivity|apply abs_ensure_active]. Qed.
 
-Lemma abs_restore_active s : abs (fst (restore_active s)) = abs s.
+Lemma abs_restore_active s : abs (fst (restore_active K s)) = abs s.
 Proof.
   unfold restore_active. destruct (s_active s) as [a|] eqn:E; cbn [fst]; [reflexivity|].
   destruct (pop_last (s_closed s)) as [[b c]|] eqn:P; cbn [fst]; [|reflexivity].
   rewrite !abs_eq, E. cbn [upd_closed upd_active s_closed s_active].
-  rewrite (pop_last_cb _ _ _ P), flat_map_app. cbn [flat_map]. rewrite !app_nil_r. reflexivity.
+  rewrite (pop_last_cb _ _ _ P), flat_map_app. cbn [flat_map]. rewrite !app_nil_r, blob_load_index_recs. reflexivity.
 Qed.
 
 Lemma abs_worker s f : (forall s, abs (fst (f s)) = abs s) -> abs (worker s f) = abs s.
@@ -1022,7 +1030,7 @@ Proof.
   - pose proof (abs_close_active s) as H1. destruct (close_active s) as [s' e].
     cbn [fst] in *. rewrite abs_request_dump. exact H1.
   - pose proof (abs_create_active s) as H1. destruct (create_active s) as [s' e]. exact H1.
-  - pose proof (abs_restore_active s) as H1. destruct (restore_active s) as [s' e]. exact H1.
+  - pose proof (abs_restore_active s) as H1. destruct (restore_active K s) as [s' e]. exact H1.
   - cbn [fst]. rewrite abs_request_dump. apply abs_worker, abs_close_active.
   - cbn [fst]. apply abs_worker, abs_create_active.
   - cbn [fst]. apply abs_worker, abs_restore_active.
@@ -1084,7 +1092,7 @@ Proof. unfold close_active. destruct (s_active s); reflexivity. Qed.
 Lemma open_create_active s : s_open (fst (create_active s)) = s_open s.
 Proof. unfold create_active. destruct (s_active s); [reflexivity|apply open_ensure_active]. Qed.
 
-Lemma open_restore_active s : s_open (fst (restore_active s)) = s_open s.
+Lemma open_restore_active s : s_open (fst (restore_active K s)) = s_open s.
 Proof.
   unfold restore_active. destruct (s_active s); [reflexivity|].
   destruct (pop_last (s_closed s)) as [[b c]|]; reflexivity.
@@ -1157,7 +1165,7 @@ Proof.
     cbn [fst] in *. rewrite open_request_dump in Ho. congruence.
   - pose proof (open_create_active s) as H1. destruct (create_active s) as [s' e].
     cbn [fst] in *. congruence.
-  - pose proof (open_restore_active s) as H1. destruct (restore_active s) as [s' e].
+  - pose proof (open_restore_active s) as H1. destruct (restore_active K s) as [s' e].
     cbn [fst] in *. congruence.
   - cbn [fst] in Ho. rewrite open_request_dump, open_worker in Ho by apply open_close_active. congruence.
   - cbn [fst] in Ho. rewrite open_worker in Ho by apply open_create_active. congruence.
@@ -1227,6 +1235,258 @@ Proof.
   apply IH; [apply H1, F1|exact F].
 Qed.
 
+(* ---------- the active blob's index is in memory: F2 is unreachable ---------- *)
+(* Every place that installs an active blob installs one whose index is in memory: new_blob
+   (ensure_active, replace_active, init_new), blob_load_index (eager open, restore_active -- the
+   repair of F2 --, push_deletion_record); blob_append keeps the state of the index; close and drop
+   leave no active blob; the background dump touches closed blobs only. *)
+Definition ActiveInMemory (s : storage) : Prop := forall b, s_active s = Some b -> b_ondisk b = false.
+
+Lemma aim_ext s s' : s_active s' = s_active s -> ActiveInMemory s -> ActiveInMemory s'.
+Proof. unfold ActiveInMemory. intros ->. auto. Qed.
+
+Lemma aim_none s : s_active s = None -> ActiveInMemory s.
+Proof. intros E b Hb. rewrite E in Hb. discriminate. Qed.
+
+Lemma aim_some s b : s_active s = Some b -> b_ondisk b = false -> ActiveInMemory s.
+Proof. intros E D x Hx. rewrite E in Hx. injection Hx as <-. exact D. Qed.
+
+Theorem init_ActiveInMemory : ActiveInMemory init_storage.
+Proof. apply aim_none. reflexivity. Qed.
+
+Lemma aim_request_dump s : ActiveInMemory s -> ActiveInMemory (request_dump s).
+Proof. unfold request_dump. destruct (s_alive s); [|auto]. apply aim_ext; reflexivity. Qed.
+
+Lemma aim_ensure_active s : ActiveInMemory s -> ActiveInMemory (ensure_active s).
+Proof.
+  intros H. unfold ensure_active. destruct (s_active s) as [a|] eqn:E; [exact H|].
+  apply (aim_some _ (new_blob (s_next s))); reflexivity.
+Qed.
+
+Lemma aim_close_active s : ActiveInMemory s -> ActiveInMemory (fst (close_active s)).
+Proof.
+  intros H. unfold close_active. destruct (s_active s) as [a|] eqn:E; cbn [fst]; [|exact H].
+  apply aim_none. reflexivity.
+Qed.
+
+Lemma aim_create_active s : ActiveInMemory s -> ActiveInMemory (fst (create_active s)).
+Proof.
+  intros H. unfold create_active. destruct (s_active s) as [a|] eqn:E; cbn [fst]; [exact H|].
+  apply aim_ensure_active, H.
+Qed.
+
+Lemma aim_restore_active s : ActiveInMemory s -> ActiveInMemory (fst (restore_active K s)).
+Proof.
+  intros H. unfold restore_active. destruct (s_active s) as [a|] eqn:E; cbn [fst]; [exact H|].
+  destruct (pop_last (s_closed s)) as [[b c]|] eqn:P; cbn [fst]; [|exact H].
+  apply (aim_some _ (blob_load_index K b)); [reflexivity|apply blob_load_index_mem].
+Qed.
+
+Lemma aim_worker s f :
+  (forall s, ActiveInMemory s -> ActiveInMemory (fst (f s))) -> ActiveInMemory s -> ActiveInMemory (worker s f).
+Proof.
+  intros Hf H. unfold worker. destruct (s_alive s); [|exact H].
+  specialize (Hf s H). destruct (f s) as [s' [e|]]; cbn [fst] in Hf; [|exact Hf].
+  revert Hf. apply aim_ext; reflexivity.
+Qed.
+
+Lemma aim_replace_active s : ActiveInMemory (replace_active s).
+Proof. apply (aim_some _ (new_blob (s_next s))); reflexivity. Qed.
+
+Lemma aim_maybe_rotate s : ActiveInMemory s -> ActiveInMemory (maybe_rotate K cfg s).
+Proof.
+  intros H. unfold maybe_rotate. destruct (s_active s) as [a|]; [|exact H].
+  destruct (blob_full K cfg a && s_aged s && s_alive s); [|exact H].
+  apply aim_request_dump, aim_replace_active.
+Qed.
+
+Theorem quiesce_ActiveInMemory : forall s, ActiveInMemory s -> ActiveInMemory (quiesce K s).
+Proof.
+  intros s. unfold quiesce. destruct (s_alive s && s_dump_req s); [|auto]. apply aim_ext; reflexivity.
+Qed.
+
+Lemma blob_append_ondisk b r : b_ondisk (fst (blob_append b r)) = b_ondisk b.
+Proof. unfold blob_append. destruct (b_ondisk b) eqn:D; cbn [fst b_ondisk]; [reflexivity|reflexivity]. Qed.
+
+Lemma blob_delete_mem b mk oip :
+  b_ondisk b = false -> b_ondisk (fst (fst (blob_delete K b mk oip))) = false.
+Proof.
+  intros Hd. unfold blob_delete.
+  destruct (negb oip || match idx_get_latest (b_idx b) (r_key mk) with Found _ => true | _ => false end);
+    [|exact Hd].
+  pose proof (blob_append_ondisk (blob_load_index K b) mk) as Ha.
+  destruct (blob_append (blob_load_index K b) mk) as [b2 ok]. cbn [fst] in *.
+  rewrite Ha. apply blob_load_index_mem.
+Qed.
+
+Lemma aim_do_open files c lazy f2 : ActiveInMemory (do_open K files c lazy f2).
+Proof.
+  unfold do_open. destruct files as [|f0 fs]; [apply (aim_some _ (new_blob 0)); reflexivity|].
+  destruct lazy; [apply aim_none; reflexivity|].
+  destruct (rev (sort_by_id (map (blob_from_file K) (f0 :: fs)))) as [|last r];
+    [apply aim_none; reflexivity|].
+  apply (aim_some _ (blob_load_index K last)); [reflexivity|apply blob_load_index_mem].
+Qed.
+
+(* with the active index in memory a write is acknowledged, or refused for another reason, and the
+   ghost flag stays as it was *)
+Lemma do_write_mem s k ts meta msize dlen dseed :
+  ActiveInMemory s ->
+  ActiveInMemory (fst (do_write K cfg s k ts meta msize dlen dseed)) /\
+  s_f2 (fst (do_write K cfg s k ts meta msize dlen dseed)) = s_f2 s /\
+  snd (do_write K cfg s k ts meta msize dlen dseed) <> RErr EIndex.
+Proof.
+  intros H. unfold do_write. pose proof (aim_ensure_active s H) as H1. rewrite <- (f2_ensure_active s).
+  set (s1 := ensure_active s) in *. clearbody s1.
+  destruct (negb (c_dup cfg) && is_found (get_latest_entry s1 k meta)); cbn [fst snd];
+    [split; [exact H1|split; [reflexivity|discriminate]]|].
+  destruct (s_active s1) as [a|] eqn:EA; cbn [fst snd];
+    [|split; [exact H1|split; [reflexivity|discriminate]]].
+  pose proof (blob_append_mem a (mk_rec k ts false meta msize dlen dseed) (H1 a EA)) as Hok.
+  pose proof (blob_append_ondisk a (mk_rec k ts false meta msize dlen dseed)) as Hd.
+  destruct (blob_append a (mk_rec k ts false meta msize dlen dseed)) as [b' ok].
+  cbn [fst snd] in Hok, Hd. subst ok. cbn [fst snd]. split; [|split; [|discriminate]].
+  - apply aim_maybe_rotate, (aim_some _ b'); [reflexivity|]. rewrite Hd. apply H1, EA.
+  - rewrite f2_maybe_rotate. reflexivity.
+Qed.
+
+Lemma ensure_active_some s : exists a, s_active (ensure_active s) = Some a.
+Proof.
+  unfold ensure_active. destruct (s_active s) as [a|] eqn:E; [exists a; exact E|].
+  exists (new_blob (s_next s)). reflexivity.
+Qed.
+
+(* with the active index in memory every write is acknowledged *)
+Lemma do_write_ack s k ts meta msize dlen dseed :
+  ActiveInMemory s -> snd (do_write K cfg s k ts meta msize dlen dseed) = RUnit.
+Proof.
+  intros H. unfold do_write. pose proof (aim_ensure_active s H) as H1.
+  destruct (ensure_active_some s) as [a EA].
+  set (s1 := ensure_active s) in *. clearbody s1.
+  destruct (negb (c_dup cfg) && is_found (get_latest_entry s1 k meta)); [reflexivity|].
+  rewrite EA.
+  pose proof (blob_append_mem a (mk_rec k ts false meta msize dlen dseed) (H1 a EA)) as Hok.
+  destruct (blob_append a (mk_rec k ts false meta msize dlen dseed)) as [b' ok].
+  cbn [snd] in Hok. subst ok. reflexivity.
+Qed.
+
+(* a delete never fails with the index error, whatever the state (blob_delete_spec) *)
+Lemma do_delete_mem s k ts meta msize oip :
+  ActiveInMemory s ->
+  ActiveInMemory (fst (do_delete K s k ts meta msize oip)) /\
+  s_f2 (fst (do_delete K s k ts meta msize oip)) = s_f2 s /\
+  snd (do_delete K s k ts meta msize oip) <> RErr EIndex.
+Proof.
+  intros H. unfold do_delete.
+  assert (H1 : ActiveInMemory (if oip then s else ensure_active s)).
+  { destruct oip; [exact H|apply aim_ensure_active, H]. }
+  assert (F1 : s_f2 (if oip then s else ensure_active s) = s_f2 s).
+  { destruct oip; [reflexivity|apply f2_ensure_active]. }
+  rewrite <- F1. set (s1 := if oip then s else ensure_active s) in *. clearbody s1.
+  set (mk := mk_rec k ts true meta msize 0 0).
+  destruct (s_active s1) as [a|] eqn:EA.
+  - pose proof (blob_delete_mem a mk oip (H1 a EA)) as Hd.
+    destruct (blob_delete K a mk oip) as [[b' d] ok] eqn:B.
+    destruct (blob_delete_spec _ _ _ _ _ _ B) as (Hk & _ & _). subst ok. cbn [negb fst] in *.
+    destruct (delete_in_closed K (s_closed (upd_active s1 (Some b'))) mk) as [[c' nc] f] eqn:D.
+    destruct (delete_in_closed_spec _ _ _ _ _ D) as (Hf & _ & _). subst f.
+    destruct (0 <? nc); cbn [fst snd]; (split; [|split; [|discriminate]]).
+    + apply aim_request_dump, (aim_some _ b'); [reflexivity|exact Hd].
+    + rewrite f2_request_dump. cbn [s_f2 upd_f2 upd_closed upd_active]. apply orb_false_r.
+    + apply (aim_some _ b'); [reflexivity|exact Hd].
+    + cbn [s_f2 upd_f2 upd_closed upd_active]. apply orb_false_r.
+  - cbn [negb].
+    destruct (delete_in_closed K (s_closed s1) mk) as [[c' nc] f] eqn:D.
+    destruct (delete_in_closed_spec _ _ _ _ _ D) as (Hf & _ & _). subst f.
+    destruct (0 <? nc); cbn [fst snd]; (split; [|split; [|discriminate]]).
+    + apply aim_request_dump. revert H1. apply aim_ext; reflexivity.
+    + rewrite f2_request_dump. cbn [s_f2 upd_f2 upd_closed]. apply orb_false_r.
+    + revert H1. apply aim_ext; reflexivity.
+    + cbn [s_f2 upd_f2 upd_closed]. apply orb_false_r.
+Qed.
+
+Theorem step_ActiveInMemory : forall s o, ActiveInMemory s -> ActiveInMemory (fst (step K cfg s o)).
+Proof.
+  intros s o H. unfold step. destruct (needs_open o && negb (s_open s)); [exact H|].
+  destruct o; try exact H.
+  - apply do_write_mem, H.
+  - apply do_delete_mem, H.
+  - pose proof (aim_close_active s H) as H1. destruct (close_active s) as [s' e].
+    cbn [fst] in *. apply aim_request_dump, H1.
+  - pose proof (aim_create_active s H) as H1. destruct (create_active s) as [s' e]. exact H1.
+  - pose proof (aim_restore_active s H) as H1. destruct (restore_active K s) as [s' e]. exact H1.
+  - cbn [fst]. apply aim_request_dump, aim_worker; [apply aim_close_active|exact H].
+  - cbn [fst]. apply aim_worker; [apply aim_create_active|exact H].
+  - cbn [fst]. apply aim_worker; [apply aim_restore_active|exact H].
+  - cbn [fst]. apply aim_request_dump.
+    destruct (s_alive s && eval_pred pred s); [apply aim_replace_active|exact H].
+  - cbn [fst]. apply aim_request_dump, H.
+  - cbn [fst]. apply quiesce_ActiveInMemory, H.
+  - cbn [fst]. apply aim_none. reflexivity.
+  - cbn [fst]. apply aim_none. reflexivity.
+  - destruct (s_open s); cbn [fst]; [exact H|apply aim_do_open].
+Qed.
+
+Lemma f2_do_open files c lazy f2 : s_f2 (do_open K files c lazy f2) = f2.
+Proof.
+  unfold do_open. destruct files as [|f0 fs]; [reflexivity|]. destruct lazy; [reflexivity|].
+  destruct (rev (sort_by_id (map (blob_from_file K) (f0 :: fs)))); reflexivity.
+Qed.
+
+(* no operation raises the ghost flag *)
+Theorem step_f2_eq : forall s o, ActiveInMemory s -> s_f2 (fst (step K cfg s o)) = s_f2 s.
+Proof.
+  intros s o H. unfold step. destruct (needs_open o && negb (s_open s)); [reflexivity|].
+  destruct o; try reflexivity.
+  - apply do_write_mem, H.
+  - apply do_delete_mem, H.
+  - pose proof (f2_close_active s) as H1. destruct (close_active s) as [s' e].
+    cbn [fst] in *. rewrite f2_request_dump. exact H1.
+  - pose proof (f2_create_active s) as H1. destruct (create_active s) as [s' e]. exact H1.
+  - pose proof (f2_restore_active s) as H1. destruct (restore_active K s) as [s' e]. exact H1.
+  - cbn [fst]. rewrite f2_request_dump. apply f2_worker, f2_close_active.
+  - cbn [fst]. apply f2_worker, f2_create_active.
+  - cbn [fst]. apply f2_worker, f2_restore_active.
+  - cbn [fst]. rewrite f2_request_dump. destruct (s_alive s && eval_pred pred s); reflexivity.
+  - cbn [fst]. apply f2_request_dump.
+  - cbn [fst]. apply f2_quiesce.
+  - destruct (s_open s); cbn [fst]; [reflexivity|apply f2_do_open].
+Qed.
+
+(* ... and no write or delete is refused with ErrorKind::Index *)
+Theorem step_no_index_error : forall s o, ActiveInMemory s -> snd (step K cfg s o) <> RErr EIndex.
+Proof.
+  intros s o H. unfold step. destruct (needs_open o && negb (s_open s)); [discriminate|].
+  destruct o; cbn [snd]; try discriminate.
+  - apply do_write_mem, H.
+  - apply do_delete_mem, H.
+  - unfold close_active. destruct (s_active s); discriminate.
+  - unfold create_active. destruct (s_active s); discriminate.
+  - unfold restore_active. destruct (s_active s); [discriminate|].
+    destruct (pop_last (s_closed s)) as [[b c]|]; discriminate.
+  - destruct (s_open s); discriminate.
+Qed.
+
+Theorem run_ActiveInMemory : forall ops s,
+  ActiveInMemory s ->
+  ActiveInMemory (fst (run K cfg s ops)) /\ s_f2 (fst (run K cfg s ops)) = s_f2 s.
+Proof.
+  induction ops as [|o ops IH]; intros s H; cbn [run]; [split; [exact H|reflexivity]|].
+  unfold step_q. pose proof (step_ActiveInMemory s o H) as H1. pose proof (step_f2_eq s o H) as F1.
+  destruct (step K cfg s o) as [s' x]. cbn [fst] in H1, F1.
+  destruct (IH (quiesce K s') (quiesce_ActiveInMemory s' H1)) as [H2 F2].
+  destruct (run K cfg (quiesce K s') ops) as [s'' xs]. cbn [fst] in *.
+  split; [exact H2|]. rewrite F2, f2_quiesce. exact F1.
+Qed.
+
+(* the invariant without the proviso on the ghost flag *)
+Theorem run_Inv_mem : forall ops s,
+  Inv K s -> ActiveInMemory s -> s_f2 s = false -> Inv K (fst (run K cfg s ops)).
+Proof.
+  intros ops s HI HA F. apply run_Inv; [exact HI|].
+  rewrite (proj2 (run_ActiveInMemory ops s HA)). exact F.
+Qed.
+
 End K.
 
 Print Assumptions init_BlobsOk.
@@ -1248,3 +1508,8 @@ Print Assumptions step_Inv.
 Print Assumptions step_q_Inv.
 Print Assumptions run_Inv.
 Print Assumptions nondata_abs_needs_NoActiveWhenClosed.
+Print Assumptions step_ActiveInMemory.
+Print Assumptions step_f2_eq.
+Print Assumptions step_no_index_error.
+Print Assumptions run_ActiveInMemory.
+Print Assumptions run_Inv_mem.
